@@ -87,7 +87,7 @@ func (s *Stats) Write() {
 	if path == "" || s == nil {
 		return
 	}
-	s.NTHashes = s.NTHashes[:0]
+	s.NTHashes = []string{}
 	for k := range s.NonTrivial {
 		s.NTHashes = append(s.NTHashes, k)
 	}
